@@ -287,51 +287,59 @@ def build_rich(path, seed):
             return None
     if os.path.exists(path):
         os.remove(path)
+    def A(kind, fn, *deps):
+        """run one construction step unless something it needs could not be built"""
+        if any(d is None for d in deps):
+            made["skipped:" + kind] = "dependency missing"
+            return None
+        return attempt(kind, fn)
     with patched(T_BUILD, idseed="rich/%s" % seed):
         f = nixio.File.open(path, nixio.FileMode.Overwrite)
         try:
-            sec = f.create_section(nm("sec"), "meta.t")
-            sub = sec.create_section(nm("sub"), "meta.sub")
-            attempt("property", lambda: sec.create_property(nm("p"), [1, 2, 3]))
-            pr = attempt("property", lambda: sec.create_property(nm("q"), ["a", "b"]))
-            if pr is not None:
-                attempt("property.unit", lambda: setattr(pr, "definition", "a property"))
-            attempt("property", lambda: sub.create_property(nm("f"), [1.5]))
+            sec = A("section", lambda: f.create_section(nm("sec"), "meta.t"))
+            sub = A("section", lambda: sec.create_section(nm("sub"), "meta.sub"), sec)
+            A("property", lambda: sec.create_property(nm("p"), [1, 2, 3]), sec)
+            pr = A("property", lambda: sec.create_property(nm("q"), ["a", "b"]), sec)
+            A("property.definition", lambda: setattr(pr, "definition", "a property"), pr)
+            A("property", lambda: sub.create_property(nm("f"), [1.5]), sub)
             for bi in range(r.randint(1, 2)):
-                b = f.create_block(nm("blk%d_" % bi), "blk.t")
-                b.definition = "block %d" % bi
+                b = A("block", lambda: f.create_block(nm("blk%d_" % bi), "blk.t"))
+                if b is None:
+                    continue
+                A("block.definition", lambda: setattr(b, "definition", "block %d" % bi))
                 n1 = r.randint(2, 4)
                 n2 = r.randint(2, 3)
-                da = b.create_data_array(nm("a"), "arr.t", data=np.arange(float(n1 * n2)).reshape(n1, n2),
-                                         label="L", unit="mV")
-                attempt("setdim", lambda: da.append_set_dimension(["l%d" % i for i in range(n1)]))
-                attempt("sampleddim", lambda: da.append_sampled_dimension(0.5, label="t", unit="s"))
-                da3 = b.create_data_array(nm("s"), "arr.t", data=[0.5, 1.5, 2.5])
-                attempt("dimlink", lambda: da3.append_range_dimension_using_self())
-                da2 = b.create_data_array(nm("r"), "arr.t", data=[1.0, 2.0, 3.0][:r.randint(2, 3)])
-                attempt("rangedim", lambda: da2.append_range_dimension([1.0, 2.0, 3.0][:len(da2)], label="r",
-                                                                       unit="ms"))
-                attempt("dataframe", lambda: b.create_data_frame(nm("df"), "df.t", col_dict={"n": str, "v": float},
-                                                                 data=[("a", 1.0), ("b", 2.0)]))
-                g = b.create_group(nm("g"), "grp.t")
-                g.data_arrays.append(da)
-                t = b.create_tag(nm("t"), "tag.t", [0.0, 0.5])
-                t.extent = [1.0, 1.0]
-                t.references.append(da)
-                attempt("feature", lambda: t.create_feature(da2, nixio.LinkType.Untagged))
-                pos = b.create_data_array(nm("pos"), "arr.t", data=[[0.0, 0.5], [1.0, 1.0]])
-                ext = b.create_data_array(nm("ext"), "arr.t", data=[[1.0, 0.5], [0.5, 0.5]])
-                mt = b.create_multi_tag(nm("m"), "mtag.t", pos)
-                mt.extents = ext
-                mt.references.append(da)
-                attempt("feature", lambda: mt.create_feature(da2, nixio.LinkType.Indexed))
-                s = b.create_source(nm("src"), "src.t")
-                s.create_source(nm("ssrc"), "src.t")
-                attempt("sourcelink", lambda: da.sources.append(s))
-                attempt("grouplink", lambda: g.tags.append(t))
-                attempt("grouplink", lambda: g.multi_tags.append(mt))
-                b.metadata = sec
-                da.metadata = sub
+                n3 = r.randint(2, 3)
+                da = A("array", lambda: b.create_data_array(nm("a"), "arr.t",
+                                                            data=np.arange(float(n1 * n2)).reshape(n1, n2),
+                                                            label="L", unit="mV"))
+                A("setdim", lambda: da.append_set_dimension(["l%d" % i for i in range(n1)]), da)
+                A("sampleddim", lambda: da.append_sampled_dimension(0.5, label="t", unit="s"), da)
+                da3 = A("array", lambda: b.create_data_array(nm("s"), "arr.t", data=[0.5, 1.5, 2.5]))
+                A("dimlink", lambda: da3.append_range_dimension_using_self(), da3)
+                da2 = A("array", lambda: b.create_data_array(nm("r"), "arr.t", data=[1.0, 2.0, 3.0][:n3]))
+                A("rangedim", lambda: da2.append_range_dimension([1.0, 2.0, 3.0][:n3], label="r", unit="ms"), da2)
+                A("dataframe", lambda: b.create_data_frame(nm("df"), "df.t", col_dict={"n": str, "v": float},
+                                                           data=[("a", 1.0), ("b", 2.0)]))
+                g = A("group", lambda: b.create_group(nm("g"), "grp.t"))
+                A("grouplink", lambda: g.data_arrays.append(da), g, da)
+                t = A("tag", lambda: b.create_tag(nm("t"), "tag.t", [0.0, 0.5]))
+                A("tag.extent", lambda: setattr(t, "extent", [1.0, 1.0]), t)
+                A("tag.reference", lambda: t.references.append(da), t, da)
+                A("feature", lambda: t.create_feature(da2, nixio.LinkType.Untagged), t, da2)
+                pos = A("array", lambda: b.create_data_array(nm("pos"), "arr.t", data=[[0.0, 0.5], [1.0, 1.0]]))
+                ext = A("array", lambda: b.create_data_array(nm("ext"), "arr.t", data=[[1.0, 0.5], [0.5, 0.5]]))
+                mt = A("multitag", lambda: b.create_multi_tag(nm("m"), "mtag.t", pos), pos)
+                A("multitag.extents", lambda: setattr(mt, "extents", ext), mt, ext)
+                A("multitag.reference", lambda: mt.references.append(da), mt, da)
+                A("feature", lambda: mt.create_feature(da2, nixio.LinkType.Indexed), mt, da2)
+                s = A("source", lambda: b.create_source(nm("src"), "src.t"))
+                A("source", lambda: s.create_source(nm("ssrc"), "src.t"), s)
+                A("sourcelink", lambda: da.sources.append(s), da, s)
+                A("grouplink", lambda: g.tags.append(t), g, t)
+                A("grouplink", lambda: g.multi_tags.append(mt), g, mt)
+                A("metadata", lambda: setattr(b, "metadata", sec), sec)
+                A("metadata", lambda: setattr(da, "metadata", sub), da, sub)
         finally:
             f.close()
     return made
@@ -1530,9 +1538,10 @@ def check_ro_session(ctx, case):
     try:
         build_rich(path, seed)
     except Exception as e:
-        return [Failure("a new file cannot be created and populated in overwrite mode", ["missing", "w"],
-                        "%s: %s" % (type(e).__name__, str(e)[:120]), "an empty writable file with a fresh header",
-                        "nixio/file.py:File.__init__")], stats, {}
+        # the implementation cannot create a file at all: that is the 'missing path' row of the property
+        fl = check_missing(ctx, ["missing", "w"])
+        stats["build_error"] = "%s: %s" % (type(e).__name__, str(e)[:160])
+        return ([fl] if fl is not None else []), stats, {}
     before = sha_file(path)
     f = nixio.File.open(path, nixio.FileMode.ReadOnly)
     try:
